@@ -387,6 +387,9 @@ def c15_trend(desc, rec, r):
     mm = desc["task"]["minmax"]
     n_gen = len(res.evolution)
     iters = sorted(r.sample(range(n_gen), r.randrange(1, n_gen + 1)))
+    if r.random() < 0.4:
+        # any list of iterations: unsorted, with repetitions
+        iters = [r.randrange(n_gen) for _ in range(r.randrange(1, n_gen + 3))]
     min_size = min(len(g.agents) for g in res.evolution)
     idx = r.randrange(0, min_size)
     if any(math.isnan(a.cost) for g in res.evolution for a in g.agents):
